@@ -345,7 +345,7 @@ theorem global_merge_new_is_true_on_witness :
 /-- The source-level judge (`Spec.C14.globalMergeComplete`, evaluated on the merge block of the
 file before 4551043): seven fields of `struct GlobalOptions` are never assigned. -/
 theorem global_merge_old_incomplete :
-    (Gen.globalOptions.filter fun o => !(oldMergedOptions.map GlobalOpt.name).contains o) =
+    ((GlobalOpt.all.map GlobalOpt.name).filter fun o => !(oldMergedOptions.map GlobalOpt.name).contains o) =
       ["cert_file_ext", "env", "file_name_format", "pk_file_ext", "random_early_renew",
        "renew_delay", "root_certificates"] ∧
     globalMergeMissing = [] := by decide
